@@ -533,6 +533,25 @@ impl W {
             let name = if fi == 0 { "pkg".to_string() } else { format!("m{fi}") };
             files.push((name, text));
         }
+        // errors whose labels lie in two files: an item of the root named like a child module,
+        // placed behind padding so that its offsets exceed the child's length
+        if files.len() > 1 && c.chance(70) {
+            let child = files[1 + c.below(files.len() - 1)].0.clone();
+            let pad = "x".repeat(c.below(3) * 700 + 40);
+            let decl = match c.below(5) {
+                0 => format!("fn {child}() {{ }}"),
+                1 => format!("record {child} {{ a: i32 }}"),
+                2 => format!("const {child}: i32 = 1;"),
+                3 => format!("enum {child} {{ A }}"),
+                _ => format!("import {child}.zz_missing; import {child}.{child};"),
+            };
+            let root = &mut files[0].1;
+            if c.chance(128) {
+                *root = format!("// é{pad}\n{decl}\n{root}");
+            } else {
+                root.push_str(&format!("\n// é{pad}\n{decl}\n"));
+            }
+        }
         let _ = &self.excl;
         files
     }
@@ -579,7 +598,7 @@ impl Prop for C06P {
         "C06"
     }
     fn rule(&self) -> String {
-        "source texts from seven generators, four cases in ten with a multi-byte letter appended to every generated name so that cited locations border on multi-byte characters (random token sequences over the full token alphabet incl. non-ASCII, malformed and unterminated literals; valid generated programs with 1-3 token/character-level mutations; syntactically valid but mostly ill-typed programs; well-typed programs with one type-breaking edit; graphs of 1-5 record/enum declarations referring to themselves and each other directly and through options, lists, anonymous records, Result and type arguments with matching and mismatching arity; import statements with valid and invalid paths, groups, duplicates and clashes at top level and inside bodies; duplicate declarations of every kind and self-referential inference knots such as `let x = []; x.push({ a: x })`), as single files and as 2-3 module trees, bracket nesting <= 64; oracle: FileTree::compile returns a package or a report, the report renders with and without colour, every cited location lies in its file on char boundaries; any panic/abort/stack overflow is a violation. Non-trivial: the input gets past the parser or is longer than 20 bytes; distinct by text".into()
+        "source texts from seven generators, four cases in ten with a multi-byte letter appended to every generated name so that cited locations border on multi-byte characters (random token sequences over the full token alphabet incl. non-ASCII, malformed and unterminated literals; valid generated programs with 1-3 token/character-level mutations; syntactically valid but mostly ill-typed programs; well-typed programs with one type-breaking edit; graphs of 1-5 record/enum declarations referring to themselves and each other directly and through options, lists, anonymous records, Result and type arguments with matching and mismatching arity; import statements with valid and invalid paths, groups, duplicates and clashes at top level and inside bodies; duplicate declarations of every kind and self-referential inference knots such as `let x = []; x.push({ a: x })`), as single files and as 2-3 module trees (sometimes with a root item named like a child module, so that one error is labelled in two files), bracket nesting <= 64; oracle: FileTree::compile returns a package or a report, the report renders with and without colour, every cited location lies in its file on char boundaries; any panic/abort/stack overflow is a violation. Non-trivial: the input gets past the parser or is longer than 20 bytes; distinct by text".into()
     }
     fn assumptions(&self) -> Vec<String> {
         vec![
